@@ -11,13 +11,32 @@ for line in open('/verif/seeded/RESULTS.txt'):
     if m:
         res.setdefault(m.group(1), []).append(m.groups()[1:])
 rows = []
+ncaught = 0
 for d in sorted(glob.glob('/verif/seeded/C*-m*')):
     name = os.path.basename(d)
     meta = json.load(open(os.path.join(d, 'meta.json')))
-    for (chk, rc, nv, wall, keys) in res.get(name, [('-', '-', '-', '-', 'not run')]):
-        verdict = 'caught' if rc == '1' and nv != '0' else ('MISSED' if rc == '0' else 'check broken (rc=%s)' % rc)
-        keys = ', '.join('`%s`' % k for k in keys.split()[:3]) + (' …' if len(keys.split()) > 3 else '')
-        rows.append('| %s | %s | %s | %s, %s s | %s |' % (name, meta['summary'].replace('|', '\\|'), meta['needs_to_manifest'].replace('|', '\\|'), verdict + ' by ' + chk, wall, keys))
+    rs = res.get(name, [])
+    if not rs:
+        rows.append('| %s | %s | %s | not run | |' % (name, meta['summary'].replace('|', '\\|'), meta['needs_to_manifest'].replace('|', '\\|')))
+        continue
+    parts, allkeys, caught = [], [], False
+    for (chk, rc, nv, wall, keys) in rs:
+        if rc == '1' and nv != '0':
+            parts.append('caught by %s, %s s' % (chk, wall))
+            allkeys += keys.split()
+            caught = True
+        elif rc == '0':
+            parts.append('not seen by %s' % chk)
+        else:
+            parts.append('%s broken (rc=%s)' % (chk, rc))
+    if caught:
+        ncaught += 1
+    verdict = '; '.join(parts) if caught else 'MISSED: ' + '; '.join(parts)
+    if meta.get('note'):
+        verdict += ' (' + meta['note'] + ')'
+    ks = ', '.join('`%s`' % k for k in allkeys[:3]) + (' …' if len(allkeys) > 3 else '')
+    rows.append('| %s | %s | %s | %s | %s |' % (name, meta['summary'].replace('|', '\\|'), meta['needs_to_manifest'].replace('|', '\\|'), verdict, ks))
+hdr += '%d of %d seeded changes caught; ' % (ncaught, len(rows))
 table = '| change | what it does | what it needs to show | quick check (seed 1) | violation keys (first 3) |\n|---|---|---|---|---|\n' + '\n'.join(rows)
 md = open('/verif/DESIGN.md').read()
 a = md.index('<!-- SEEDED-TABLE-BEGIN -->')
